@@ -1,6 +1,6 @@
 (* C05 — Per-order matching follows the documented iceberg / reserve / plain rules.
    Only statements live here; proofs are in Proofs/OrderProofs.v. *)
-From PL Require Import Model.Order Spec.MatchSpec Proofs.OrderProofs.
+From PL Require Import Model.Order Spec.MatchSpec Proofs.OrderProofs Proofs.OrderClauses.
 Local Open Scope N_scope.
 
 (* The code agrees with the declarative rules for every order and every quantity. *)
@@ -40,6 +40,79 @@ Theorem C05_bounded :
     match m_updated r with Some u => wf_order u | None => True end.
 Proof. exact match_against_bounded. Qed.
 
+(* ---- the rules clause by clause, directly on match_against --------------------------------
+   (C05_match_against_spec says the same through the declarative [match_spec]; these spell
+   the property's sentences out so that each can be read against the text.) *)
+
+(* "An iceberg whose display is exhausted shows a new tranche no larger than the exhausted
+   one, taken from hidden quantity ..." *)
+Theorem C05_iceberg_tranche :
+  forall c v h inc, v <= inc -> 0 < h ->
+    let r := N.min h v in
+    match_against (Iceberg c v h) inc = mkMres v (Some (Iceberg c r (h - r))) r (inc - v) /\
+    r <= v /\ r <= h /\ r + (h - r) = h.
+Proof. exact iceberg_tranche. Qed.
+
+(* "... and leaves when nothing is hidden" *)
+Theorem C05_iceberg_leaves :
+  forall c v inc, v <= inc ->
+    match_against (Iceberg c v 0) inc = mkMres v None 0 (inc - v).
+Proof. exact iceberg_leaves. Qed.
+
+Theorem C05_iceberg_partial :
+  forall c v h inc, inc < v ->
+    match_against (Iceberg c v h) inc = mkMres inc (Some (Iceberg c (v - inc) h)) 0 0.
+Proof. exact iceberg_partial. Qed.
+
+(* "a reserve order replenishes by its configured amount (default 80, capped by hidden
+   quantity) when its display is exhausted ..." *)
+Theorem C05_reserve_exhausted_replenishes :
+  forall c v h thr amt inc, v <= inc -> 0 < h ->
+    let rq := N.min (match amt with Some a => a | None => 80 end) h in
+    match_against (Reserve c v h thr amt true) inc
+      = mkMres v (Some (Reserve c rq (h - rq) thr amt true)) rq (inc - v) /\
+    rq <= h /\ rq + (h - rq) = h.
+Proof. exact reserve_exhausted_replenishes. Qed.
+
+(* "... or falls below its threshold (0 counts as 1) and only if auto-replenish is on" *)
+Theorem C05_reserve_partial_replenishes :
+  forall c v h thr amt inc, inc < v -> 0 < h -> v - inc < N.max thr 1 ->
+    let rq := N.min (match amt with Some a => a | None => 80 end) h in
+    match_against (Reserve c v h thr amt true) inc
+      = mkMres inc (Some (Reserve c (v - inc + rq) (h - rq) thr amt true)) rq 0 /\ rq <= h.
+Proof. exact reserve_partial_replenishes. Qed.
+
+Theorem C05_reserve_partial_shrinks :
+  forall c v h thr amt auto inc, inc < v ->
+    h = 0 \/ auto = false \/ N.max thr 1 <= v - inc ->
+    match_against (Reserve c v h thr amt auto) inc
+      = mkMres inc (Some (Reserve c (v - inc) h thr amt auto)) 0 0.
+Proof. exact reserve_partial_shrinks. Qed.
+
+(* "otherwise it leaves once its display is exhausted" *)
+Theorem C05_reserve_exhausted_leaves :
+  forall c v h thr amt auto inc, v <= inc -> h = 0 \/ auto = false ->
+    match_against (Reserve c v h thr amt auto) inc = mkMres v None 0 (inc - v).
+Proof. exact reserve_exhausted_leaves. Qed.
+
+(* "every other type just shrinks and leaves when filled" (and keeps its parameters) *)
+Theorem C05_plain_rule :
+  forall o inc, plain o = true ->
+    hid o = 0 /\
+    (vis o <= inc -> match_against o inc = mkMres (vis o) None 0 (inc - vis o)) /\
+    (inc < vis o -> exists u,
+       match_against o inc = mkMres inc (Some u) 0 0 /\
+       vis u = vis o - inc /\ hid u = 0 /\ same_identity o u /\ plain u = true).
+Proof. exact plain_rule. Qed.
+
+(* the reserve clauses cover every reserve order and quantity: the case split is exhaustive *)
+Example C05_reserve_cases_exhaustive :
+  forall v h thr (auto : bool) inc,
+    (v <= inc /\ 0 < h /\ auto = true) \/ (v <= inc /\ (h = 0 \/ auto = false)) \/
+    (inc < v /\ 0 < h /\ auto = true /\ v - inc < N.max thr 1) \/
+    (inc < v /\ (h = 0 \/ auto = false \/ N.max thr 1 <= v - inc)).
+Proof. exact reserve_cases_exhaustive. Qed.
+
 (* Non-vacuity: concrete orders that replenish, meet the hypotheses. *)
 Example C05_reserve_example :
   let c := mkCommon (Uuid 7) 100 Sell 5 Gtc in
@@ -69,3 +142,12 @@ Print Assumptions C05_remaining.
 Print Assumptions C05_conservation.
 Print Assumptions C05_leaves.
 Print Assumptions C05_bounded.
+Print Assumptions C05_iceberg_tranche.
+Print Assumptions C05_iceberg_leaves.
+Print Assumptions C05_iceberg_partial.
+Print Assumptions C05_reserve_exhausted_replenishes.
+Print Assumptions C05_reserve_partial_replenishes.
+Print Assumptions C05_reserve_partial_shrinks.
+Print Assumptions C05_reserve_exhausted_leaves.
+Print Assumptions C05_plain_rule.
+Print Assumptions C05_reserve_cases_exhaustive.
